@@ -6,6 +6,7 @@ import (
 	"fmt"
 	"io"
 	"strings"
+	"time"
 
 	"github.com/mimecast/dtail/internal/protocol"
 	"github.com/mimecast/dtail/internal/server/handlers"
@@ -74,6 +75,12 @@ func (s *Session) Pump(readSize int) {
 			return
 		}
 	}
+}
+
+// Wait waits (in virtual time) until the session has ended; it returns false if it has not after d.
+func (s *Session) Wait(d time.Duration) bool {
+	t := vrt.After("session-wait", d)
+	return vrt.Select("session-wait", false, s.Done.RecvCase(), t.RecvCase()) == 0
 }
 
 // Lines returns the REMOTE line messages (non-plain: field 5.. content).
